@@ -24,7 +24,7 @@ RULE = (
     "contents {fingerprint 2^(iN+j)3^b, every single-cell array, every 0/1 array for N<=3, auto containers with a full (not upper triangular) matrix}; "
     "(b) CorrFunc member subsets x auto/cross -> sample() and from_corrfuncs with {none,ref,unk,both}; "
     "(c) HistData.from_catalog on 2..4 patch catalogs; (d) all sample matrices over {0,1,2} with M*B<=6 "
-    "plus fingerprints and matrices with one NaN / inf entry in every position; normalised counts with all weight of a bin in one patch (0/0 samples; binary and decimal values); resample_jackknife directly on 2..400 (2000) patches (also scaled by 2^-50 / 2^60); sampling again after PatchedCounts.set_patch_pair; and the same matrices on top of a common value 1e6 (exact shift invariance, tolerance 1e-8); (e) pipeline with patch k removed from all frames. Oracle: explicit-loop "
+    "plus fingerprints and matrices with one NaN / inf entry in every position; normalised counts with all weight of a bin in one patch (0/0 samples; binary and decimal values); resample_jackknife directly on 2..400 (2000) patches (also scaled by 2^-50 / 2^60); sampling again after PatchedCounts.set_patch_pair; containers of B x N = (33,3), (40,3), (70,2), (30,200) (block-wise summation thresholds); joint covariance of two sample sets in both layouts (rowvar); and the same matrices on top of a common value 1e6 (exact shift invariance, tolerance 1e-8); (e) pipeline with patch k removed from all frames. Oracle: explicit-loop "
     "leave-one-out recomputation in patch-index order, (N-1)/N sum (x_k-mean)(x_k-mean)^T. Non-trivial: "
     "contents in which a permutation/loss of a patch changes some sample (asserted per case)."
 )
